@@ -274,7 +274,7 @@ pub fn run(ctx: &Ctx) -> i32 {
             return rep.finish();
         },
     };
-    let n = ctx.scale(800, 6000);
+    let n = ctx.scale(2500, 6000);
     let trees = check::draw(ctx.seed, 0xC20, n, 120);
     let cases: Vec<UCase> = trees.iter().map(|t| build(&t.current())).collect();
     // rejection half, in-process
